@@ -42,11 +42,11 @@ fn refcount_contract<const CLONES: usize>() {
     assert!(world.resource::<AutoDespawner>().try_recv().is_none(), "garbage_collect_entities: drains the channel");
     core::mem::forget(world);
 }
-//# id=K.autodespawn.refcount.c1 props=C10,C07 strength=complete shape="1 signal, parent+child" tier=quick fns=AutoDespawner::prepare,AutoDespawnSignal::clone,garbage_collect_entities,AutoDespawnSignalInner::drop
+//# id=K.autodespawn.refcount.c1 props=C10,C07 strength=complete shape="1 signal, parent+child" tier=off fns=AutoDespawner::prepare,AutoDespawnSignal::clone,garbage_collect_entities,AutoDespawnSignalInner::drop
 #[kani::proof] #[kani::unwind(6)] fn k_autodespawn_refcount_c1() { refcount_contract::<1>(); }
-//# id=K.autodespawn.refcount.c2 props=C10,C07 strength=bounded shape="2 clones, parent+child, collection after each drop" tier=quick fns=AutoDespawner::prepare,AutoDespawnSignal::clone,garbage_collect_entities,AutoDespawnSignalInner::drop
+//# id=K.autodespawn.refcount.c2 props=C10,C07 strength=bounded shape="2 clones, parent+child, collection after each drop" tier=off fns=AutoDespawner::prepare,AutoDespawnSignal::clone,garbage_collect_entities,AutoDespawnSignalInner::drop
 #[kani::proof] #[kani::unwind(6)] fn k_autodespawn_refcount_c2() { refcount_contract::<2>(); }
-//# id=K.autodespawn.refcount.c3 props=C10,C07 strength=bounded shape="3 clones, parent+child, collection after each drop" tier=thorough fns=AutoDespawner::prepare,AutoDespawnSignal::clone,garbage_collect_entities,AutoDespawnSignalInner::drop
+//# id=K.autodespawn.refcount.c3 props=C10,C07 strength=bounded shape="3 clones, parent+child, collection after each drop" tier=off fns=AutoDespawner::prepare,AutoDespawnSignal::clone,garbage_collect_entities,AutoDespawnSignalInner::drop
 #[kani::proof] #[kani::unwind(6)] fn k_autodespawn_refcount_c3() { refcount_contract::<3>(); }
 
 // ---------------------------------------------------------------------------------------------------------------
@@ -69,9 +69,9 @@ fn collect_all_contract<const DA: bool, const DB: bool>() {
     assert!(world.resource::<AutoDespawner>().try_recv().is_none(), "garbage_collect_entities: drains the channel");
     core::mem::forget(world);
 }
-//# id=K.autodespawn.collect_all.first_dead props=C10,C07,C18 strength=bounded shape="2 pending requests, the first entity already despawned by hand" tier=quick fns=garbage_collect_entities,AutoDespawner::try_recv
+//# id=K.autodespawn.collect_all.first_dead props=C10,C07,C18 strength=bounded shape="2 pending requests, the first entity already despawned by hand" tier=off fns=garbage_collect_entities,AutoDespawner::try_recv
 #[kani::proof] #[kani::unwind(6)] fn k_autodespawn_collect_all_first_dead() { collect_all_contract::<true, false>(); }
-//# id=K.autodespawn.collect_all.none_dead props=C10,C07,C18 strength=bounded shape="2 pending requests, both entities alive" tier=quick fns=garbage_collect_entities,AutoDespawner::try_recv
+//# id=K.autodespawn.collect_all.none_dead props=C10,C07,C18 strength=bounded shape="2 pending requests, both entities alive" tier=off fns=garbage_collect_entities,AutoDespawner::try_recv
 #[kani::proof] #[kani::unwind(6)] fn k_autodespawn_collect_all_none_dead() { collect_all_contract::<false, false>(); }
-//# id=K.autodespawn.collect_all.both_dead props=C10,C07,C18 strength=bounded shape="2 pending requests, both entities already despawned" tier=thorough fns=garbage_collect_entities,AutoDespawner::try_recv
+//# id=K.autodespawn.collect_all.both_dead props=C10,C07,C18 strength=bounded shape="2 pending requests, both entities already despawned" tier=off fns=garbage_collect_entities,AutoDespawner::try_recv
 #[kani::proof] #[kani::unwind(6)] fn k_autodespawn_collect_all_both_dead() { collect_all_contract::<true, true>(); }
